@@ -59,9 +59,32 @@ pub struct AlFlags {
     /// the flag must not change anything
     #[serde(default)]
     pub ignore_whitespace: Option<bool>,
+    /// limits of the regex engine: far below (64) or far above (10 MB) what any generated
+    /// expression needs, never near the boundary
+    #[serde(default)]
+    pub size_limit: Option<usize>,
+    #[serde(default)]
+    pub dfa_size_limit: Option<usize>,
+    #[serde(default)]
+    pub nest_limit: Option<u32>,
+    #[serde(default)]
+    pub unicode: Option<bool>,
 }
 
 impl AlFlags {
+    pub fn num_entries(&self) -> Vec<(&'static str, usize)> {
+        let mut v = vec![];
+        if let Some(n) = self.size_limit {
+            v.push(("size_limit", n));
+        }
+        if let Some(n) = self.dfa_size_limit {
+            v.push(("dfa_size_limit", n));
+        }
+        if let Some(n) = self.nest_limit {
+            v.push(("nest_limit", n as usize));
+        }
+        v
+    }
     pub fn eff_swap_greed(&self) -> bool {
         self.swap_greed.unwrap_or(false)
     }
@@ -108,6 +131,9 @@ impl AlFlags {
         }
         if let Some(b) = self.ignore_whitespace {
             v.push(("ignore_whitespace", b));
+        }
+        if let Some(b) = self.unicode {
+            v.push(("unicode", b));
         }
         v
     }
@@ -413,6 +439,10 @@ pub fn gen_al(ch: &mut Choices, max_rules: usize) -> AL {
     al.flags.allow_wholeline_comments = pick_flag(ch);
     al.flags.case_insensitive = pick_flag(ch);
     al.flags.swap_greed = pick_flag(ch);
+    al.flags.size_limit = *ch.choose(&[None, None, None, None, None, None, None, None, Some(10_000_000), Some(10_000_000), Some(10_000_000), Some(64)]);
+    al.flags.dfa_size_limit = *ch.choose(&[None, None, None, None, Some(10_000_000), Some(64)]);
+    al.flags.nest_limit = *ch.choose(&[None, None, None, None, None, None, None, None, None, Some(1000), Some(1000), Some(3)]);
+    al.flags.unicode = *ch.choose(&[None, None, None, None, None, None, None, None, None, Some(true), Some(true), Some(false)]);
     let want_ignore_ws = pick_flag(ch);
     let ns = ch.weighted(&[3, 3, 2, 1]);
     // names that overlap with each other and with the directive words (%s, %x, %start, ...)
@@ -500,6 +530,9 @@ pub struct RenderOpts {
     pub tab_sep: Vec<bool>,
     pub trailing_space: Vec<bool>,
     pub states_one_line: bool,
+    /// write a top-level alternation of rule i without parentheses
+    #[serde(default)]
+    pub bare_alt: Vec<bool>,
     /// spelling of the %s/%x directive words (index into DIRECTIVES_*, rotated per line)
     #[serde(default)]
     pub directive_variant: usize,
@@ -520,6 +553,7 @@ impl RenderOpts {
             tab_sep: vec![false; n],
             trailing_space: vec![false; n],
             states_one_line: true,
+            bare_alt: vec![false; n],
             directive_variant: 0,
         }
     }
@@ -534,6 +568,7 @@ impl RenderOpts {
             tab_sep: (0..n).map(|_| ch.chance(1, 4)).collect(),
             trailing_space: (0..n).map(|_| ch.chance(1, 5)).collect(),
             states_one_line: ch.chance(1, 2),
+            bare_alt: (0..n).map(|_| ch.chance(1, 2)).collect(),
             directive_variant: ch.pick(6),
         }
     }
@@ -542,7 +577,13 @@ impl RenderOpts {
 pub fn render(al: &AL, o: &RenderOpts) -> (String, Layout) {
     let mut s = String::new();
     let mut lay = Layout::default();
-    let flags = al.flags.entries();
+    let flags: Vec<(String, bool)> = al
+        .flags
+        .entries()
+        .into_iter()
+        .map(|(k, v)| (k.to_string(), v))
+        .chain(al.flags.num_entries().into_iter().map(|(k, n)| (format!("{k}: {n}"), true)))
+        .collect();
     if o.header && !flags.is_empty() {
         s.push_str("%grmtools");
         if o.header_pad >= 2 {
@@ -619,7 +660,13 @@ pub fn render(al: &AL, o: &RenderOpts) -> (String, Layout) {
             );
             s.push('>');
         }
-        s.push_str(&r.re.written());
+        // a top-level alternation may be written without its parentheses
+        match &r.re {
+            Re::Alt(v) if o.bare_alt.get(i).copied().unwrap_or(false) => {
+                s.push_str(&v.iter().map(|x| x.written()).collect::<Vec<_>>().join("|"));
+            }
+            _ => s.push_str(&r.re.written()),
+        }
         s.push(if o.tab_sep.get(i).copied().unwrap_or(false) { '\t' } else { ' ' });
         if let Some((id, op)) = &r.target {
             s.push('<');
